@@ -503,27 +503,24 @@ ITEMS = [
 
 # ---- known-finding obligations of serialize_str#block live in a light copy of the fragment ----
 # (a failing assertion makes Verus re-check the whole function body; in the fully annotated copy that re-check costs minutes,
-# ---- F34: a tuple struct inside a flow collection is a flow sequence: the closing bracket (whole body of TupleSer::end) and the separators ----
+# ---- F34 / F35: the whole body of TupleSer::end (fields and opening of an ordinary tuple struct: unit `seropts`) ----
 ITEMS += [
-    dict(src=SR, path='impl SerializeTupleStruct for TupleSer/fn end', id='TupleSer::end#whole', props=['C20', 'C01'],
+    dict(src=SR, path='impl SerializeTupleStruct for TupleSer/fn end', id='TupleSer::end#whole', props=['C20', 'C12', 'C01'],
          fragment=r'(?<=fn end\(self\) -> Result<\(\)> \{).*(?=\}\s*$)', fragment_flags='S',
-         wrapper="fn tuple_ser_end_whole<'a>(ser: &mut YamlSerializer<'a>, normal: bool, idx: usize) -> Result<(), SerError> { {FRAG} }",
-         pre_rewrites=[(r'matches!\(self\.kind, TupleKind::Normal\)', 'normal', None, 'R9'), (r'\bself\.ser\.', 'ser.', None, 'R9'), (r'\bself\.idx\b', 'idx', None, 'R9')],
-         proofs=[dict(at='start', text='reveal_strlit("["); reveal_strlit("]"); reveal_strlit(" ");')],
-         ensures=[('C20:a_tuple_struct_inside_a_flow_collection_is_closed_by_a_bracket_and_an_empty_one_is_written_as_brackets',
-                   '''r is Ok && normal && old(ser).in_flow > 0 ==> ({ let t1 = final(ser).out.text(); let n = t1.len() as int;
-                        n >= 1 && t1[n - 1] == ']' && (idx == 0 ==> n >= 2 && t1[n - 2] == '[') && n > old(ser).out.text().len() })'''),
-                  ('C20:otherwise_nothing_is_written_at_the_end_of_a_tuple_struct', 'r is Ok && !(normal && old(ser).in_flow > 0) ==> final(ser).out.text() == old(ser).out.text()')],
-         canaries=['C20:a_tuple_struct_inside_a_flow_collection_is_closed_by_a_bracket_and_an_empty_one_is_written_as_brackets']),
-    dict(src=SR, path='impl SerializeTupleStruct for TupleSer/fn serialize_field', id='TupleSer::serialize_field#flow_open', props=['C20', 'C01'], optional=True,
-         fragment=r'if self\.idx == 0 \{\s*self\.ser\.write_space_if_pending\(\)\?;\s*self\.ser\.write_anchor_for_complex_node\(\)\?;\s*self\.ser\.out\.write_str\("\["\)\?;\s*\} else \{\s*self\.ser\.out\.write_str\(", "\)\?;\s*\}',
-         fragment_flags='S',
-         wrapper="fn tuple_ser_flow_open<'a>(ser: &mut YamlSerializer<'a>, idx: usize) -> Result<(), SerError> { {FRAG} Ok(()) }",
-         pre_rewrites=[(r'\bself\.ser\.', 'ser.', None, 'R9'), (r'\bself\.idx\b', 'idx', None, 'R9')],
-         proofs=[dict(at='start', text='reveal_strlit("["); reveal_strlit(", "); reveal_strlit(" ");')],
-         ensures=[('C20:the_first_field_of_a_flow_tuple_struct_opens_the_bracket_every_later_one_follows_a_comma',
-                   '''r is Ok ==> ({ let t0 = old(ser).out.text(); let t1 = final(ser).out.text(); let n = t1.len() as int;
-                        if idx == 0 { n >= 1 && t1[n - 1] == '[' } else { t1 =~= t0 + seq![',', ' '] } })''')]),
+         wrapper="fn tuple_ser_end_whole<'a>(ser: &mut YamlSerializer<'a>, normal_flow: Option<bool>, depth_for_normal: usize, idx: usize) -> Result<(), SerError> { {FRAG} }",
+         # F35: the end of an ordinary tuple struct IS the end of the sequence opened for it: the call is checked against the contract of the
+         # woven SeqSer::end (`seqser_end_whole`, item SeqSer::end#whole), not against its body
+         pre_rewrites=[(r'if let TupleKind::Normal \{ flow \} = self\.kind', 'if let Some(flow) = normal_flow', 1, 'R9'),
+                       (r'\bflow,', 'flow: flow,', None, 'R9'),
+                       (r'SerializeSeq::end\(SeqSer \{\s*ser: self\.ser,\s*depth: ([^,]*),\s*flow: ([^,]*),\s*first: ([^,}]*?),?\s*\}\)', r'seqser_end_whole(ser, \1, \2, \3)', 1, 'R8'),
+                       (r'\bself\.depth_for_normal\b', 'depth_for_normal', None, 'R9'), (r'\bself\.idx\b', 'idx', None, 'R9')],
+         requires=[('indent_fits', 'old(ser).indent_step * depth_for_normal <= usize::MAX')],
+         ensures=[('C20:an_ordinary_tuple_struct_ends_as_the_sequence_it_is_with_a_bracket_in_flow_style_and_with_nothing_after_block_items',
+                   """r is Ok && normal_flow is Some ==> (if normal_flow->0 {
+                            final(ser).out.text() == (if old(ser).in_flow == 0 { old(ser).out.text().push(']').push('\\n') } else { old(ser).out.text().push(']') })
+                        } else { idx > 0 ==> final(ser).out.text() == old(ser).out.text() && final(ser).last_scalar_kept_breaks == old(ser).last_scalar_kept_breaks })"""),
+                  ('C20:nothing_is_written_at_the_end_of_a_wrapper_tuple', 'normal_flow is None ==> r is Ok && final(ser).out.text() == old(ser).out.text()')],
+         canaries=['C20:an_ordinary_tuple_struct_ends_as_the_sequence_it_is_with_a_bracket_in_flow_style_and_with_nothing_after_block_items']),
 ]
 
 # so F19 / F20 are asserted in a copy that carries no other proof text, and the annotated copy verifies without errors)
